@@ -212,7 +212,7 @@ func TestVerif_C38(t *testing.T) {
 		c.BRepo.Branches = append([]kit.Branch(nil), r.Branches...)
 		c.BRepo.Metadata = map[string]string{"team": "alpha"}
 		c.BRepo.RawConfig = map[string]string{"public": "1"}
-		c.Change = kit.Pick(g, []string{"SizeMax", "TrigramMax", "LargeFiles", "ShardMax", "Parallelism", "BranchVersion", "BranchSet", "Metadata", "RawConfig", "URL", "FileURLTemplate", "none", "TrigramMax", "Metadata"}, "change")
+		c.Change = kit.Pick(g, []string{"SizeMax", "TrigramMax", "LargeFiles", "LargeFilesOrder", "ShardMax", "Parallelism", "BranchVersion", "BranchSet", "Metadata", "RawConfig", "URL", "FileURLTemplate", "none", "TrigramMax", "Metadata"}, "change")
 		other := func(cur int, vals []int) int {
 			for {
 				v := kit.Pick(g, vals, "other")
@@ -234,6 +234,14 @@ func TestVerif_C38(t *testing.T) {
 					break
 				}
 			}
+		case "LargeFilesOrder":
+			// the last matching pattern wins, so the order is content-affecting
+			c.A.LargeFiles = []string{"*.big*", "!d.big*"}
+			c.B = c.A
+			c.B.LargeFiles = []string{"!d.big*", "*.big*"}
+			c.A.SizeMax, c.B.SizeMax = 40, 40
+			c.Repo.Docs = append(c.Repo.Docs, kit.Doc{Name: "d.big", Content: kit.Text(strings.Repeat("needle ", 20)), Language: "Text", Branches: []string{"HEAD"}})
+			c.BRepo.Docs = c.Repo.Docs
 		case "ShardMax":
 			c.B.ShardMax = other(a.ShardMax, []int{200, 100 << 20})
 		case "Parallelism":
